@@ -70,17 +70,29 @@ def update_monitor(run: Any) -> list[Any]:
         want = set()
         for st in path or []:
             want.add(st)
-        got_states = set()
+        # every selected variant of the vm gets the requested path
+        variants = set()
+        for g in run.tool_graphs:
+            for n in g.nodes:
+                if n.is_flat() or n.is_shared_root():
+                    continue
+                for obj in n.objects:
+                    if obj.key == "vms" and obj.suffix == vm:
+                        variants.add(trav.vm_variant(obj))
+        got_by_variant: dict[str, set[str]] = {v: set() for v in variants}
         for e in starts:
             vms = e["params"].get("vms", "").split()
             if vms != [vm]:
                 continue
-            for _k, st in e["sets"]:
+            for k, st in e["sets"]:
                 if st in trav.ROOT_STATES:
                     continue
-                got_states.add(st)
-        if got_states != want and all(e.get("status") == "PASS" for e in starts):
-            out.append((f"C15 {sc.name} executed states {vm}", f"update {frm}..{to} of {vm} executed the producers of {sorted(got_states)}, the requested path is {sorted(want)}", {}))
+                got_by_variant.setdefault(k.split("|")[1] if "|" in k else "", set()).add(st)
+        if all(e.get("status") == "PASS" for e in starts):
+            for variant, got_states in sorted(got_by_variant.items()):
+                if got_states != want:
+                    tag = "" if len(got_by_variant) == 1 else f" ({monitors._short(variant)})"
+                    out.append((f"C15 {sc.name} executed states {vm}", f"update {frm}..{to} of {vm}{tag} executed the producers of {sorted(got_states)}, the requested path is {sorted(want)}", {}))
         # the pre-step of the creation runs exactly when install is on the path
         creates = [e for e in starts if e["params"].get("vms", "").split() == [vm] and e["prefix"].startswith("0")]
         if bool(creates) != ("install" in want):
@@ -160,6 +172,7 @@ def plans(tier: str) -> list[dict[str, Any]]:
         P("update customize..connect of vm1, install..customize of vm2, 2 workers", T("u-custom-2w", {"from_state_vm1": "customize", "to_state_vm1": "connect", "from_state_vm2": "install", "to_state_vm2": "customize"}, VM12, nets="net1 net2"), m, K=1, statuses=["PASS"], pool_fixed={"install": ["shared"]}),
         P("update default of vm1 vm2, 3 workers", T("u-default-3w", {}, VM12, nets="net1 net2 net3"), m, K=1, statuses=["PASS"]),
         P("update of the permanent vm3, 2 workers", T("u-vm3", {}, {"vm3": "only Ubuntu\n"}, nets="net1 net2"), m, K=1, statuses=["PASS"]),
+        P("update customize..customize of both variants of vm1", T("u-cc-variants", {"from_state": "customize", "to_state": "customize"}, {"vm1": ""}), m, K=1, statuses=["PASS"], pool_fixed={"install": ["own", "shared"]}),
         P("update with a nonexistent target state", T("u-bad-to", {"to_state": "nonexistent"}, VM1, expect_error=True), m, K=1, statuses=["PASS"]),
     ]
     if tier == "thorough":
